@@ -153,6 +153,9 @@ func (c *Calcium) withNodesLocked(ctx context.Context, nodeFilter *types.NodeFil
 		return err
 	}
 
+	// acquire locks in ascending key order so that concurrent operations can not deadlock
+	sort.SliceStable(ns, func(i, j int) bool { return genKey(ns[i]) < genKey(ns[j]) })
+
 	var lock lock.DistributedLock
 	for _, n := range ns {
 		key := genKey(n)
